@@ -72,6 +72,39 @@ PtrToOffset(loads, a) ==
   LET hits == {j \in 1..Len(loads) : InLoad(loads[j], a)} IN
   IF hits = {} THEN -1 ELSE LET g == loads[Min(hits)] IN g.off + DSmall(DSub(a, g.va))
 
+(* ---------------------------- relocation tables ------------------------ *)
+\* gABI ch.4 "Relocation": Elf32_Rel {Addr r_offset; Word r_info}, Elf32_Rela {.. Sword r_addend}; Elf64_Rel {Addr r_offset;
+\* Xword r_info}, Elf64_Rela {.. Sxword r_addend}; ELF32_R_SYM(i) = i >> 8, ELF32_R_TYPE(i) = (unsigned char) i;
+\* ELF64_R_SYM(i) = i >> 32, ELF64_R_TYPE(i) = i & 0xffffffff.
+\* ch.5 "Dynamic Section", figure 5-10: DT_RELA 7 (address) / DT_RELASZ 8 (total size) / DT_RELAENT 9; DT_REL 17 / DT_RELSZ 18 /
+\* DT_RELENT 19; DT_JMPREL 23 (address of the relocation entries associated solely with the procedure linkage table) /
+\* DT_PLTRELSZ 2 (their total size) / DT_PLTREL 20: "This member specifies the type of relocation entry to which the procedure
+\* linkage table refers.  The d_val member holds DT_REL or DT_RELA, as appropriate.  All relocations in a procedure linkage
+\* table must use the same relocation."  - the flavour of the DT_JMPREL table is DT_PLTREL's value and nothing else (which
+\* other relocation tables the object has says nothing about it).
+\* DT_RELR 36 / DT_RELRSZ 35 / DT_RELRENT 37 (gABI, "Relative relocation table"): entries are class-width words; an entry with
+\* an even value is the address of a location that needs a relative relocation (bitmap entries - odd values - are C08's).
+DtPltrelsz == <<2>>   DtRela == <<7>>   DtRelasz == <<8>>   DtRelaent == <<9>>   DtRel == <<17>>   DtRelsz == <<18>>   DtRelent == <<19>>
+DtPltrel == <<20>>   DtJmprel == <<23>>   DtRelrsz == <<35>>   DtRelr == <<36>>   DtRelrent == <<37>>
+RelEntSize(cls, rela) == (IF rela THEN 3 ELSE 2) * (cls \div 8)
+RSym(info, cls) == IF cls = 32 THEN DSmall(SubSeq(info, 2, 4)) ELSE DSmall(SubSeq(info, 5, 8))       \* (symbol indices below 2^24)
+RType(info, cls) == IF cls = 32 THEN info[1] ELSE DSmall(SubSeq(info, 1, 4))                        \* (type codes below 2^24)
+\* entry n of the table at 0-based offset `base`: <<r_offset digits, r_info digits, symbol, type, r_addend digits (zero: REL)>>
+RelEntryAt(bs, base, n, cls, le, rela) ==
+  LET w == cls \div 8
+      at == base + n * RelEntSize(cls, rela)
+      info == RdDigits(bs, at + w, w, le)
+  IN <<RdDigits(bs, at, w, le), info, RSym(info, cls), RType(info, cls), IF rela THEN RdDigits(bs, at + 2 * w, w, le) ELSE DZero(w)>>
+\* the whole entries of a table of `size` bytes
+RelTableAt(bs, base, size, cls, le, rela) ==
+  IF base < 0 \/ size < 0 \/ base + size > Len(bs) THEN << <<-1>> >>
+  ELSE TLCEval([j \in 1..(size \div RelEntSize(cls, rela)) |-> RelEntryAt(bs, base, j - 1, cls, le, rela)])
+\* a RELR table of address entries only, in the same row shape: <<address, 0, 0, 0, 0>>
+RelrTableAt(bs, base, size, cls, le) ==
+  IF base < 0 \/ size < 0 \/ base + size > Len(bs) THEN << <<-1>> >>
+  ELSE LET w == cls \div 8 IN
+       TLCEval([j \in 1..(size \div w) |-> <<RdDigits(bs, base + (j - 1) * w, w, le), DZero(w), 0, 0, DZero(w)>>])
+
 (* ------------------------------ tag names ------------------------------ *)
 \* gABI figure 5-10 codes the reader machine itself needs
 DtNull == <<0>>   DtNeeded == <<1>>   DtHash == <<4>>   DtStrtab == <<5>>   DtSymtab == <<6>>   DtStrsz == <<10>>   DtSyment == <<11>>
